@@ -237,8 +237,8 @@ func c10Run(lockFree bool) {
 	}
 }
 
-//verif:h prop=C10 p.maxA=2/3 p.maxB=1/2 p.ops=2/2 cover=push,remove,insert,move,moverel,pushlist,init runs=3000000 timeout=200/900
+//verif:h prop=C10 p.maxA=2/3 p.maxB=1/2 p.ops=2/2 cover=push,remove,insert,move,moverel,pushlist,init runs=3000000 timeout=900/900
 func H_C10_lockfree() { c10Run(true) }
 
-//verif:h prop=C10 p.maxA=2/3 p.maxB=1/2 p.ops=2/2 cover=push,remove,insert,move,moverel,pushlist,init runs=3000000 timeout=200/900
+//verif:h prop=C10 p.maxA=2/3 p.maxB=1/2 p.ops=2/2 cover=push,remove,insert,move,moverel,pushlist,init runs=3000000 timeout=900/900
 func H_C10_threadsafe() { c10Run(false) }
